@@ -498,6 +498,16 @@ def cyc_nets():
             Not(s, 'g2', x, y)
     C['ring through a gate with a clock() hook'] = traced_ring
 
+    def traced_self(s, cut):
+        a, x = s.wire('a', 2), s.wire('x', 2)
+        if cut:
+            d = s.wire('d', 2)
+            TracedXor(s, 'tx', a, x, d)
+            Reg(s, 'r', d, x)
+        else:
+            TracedXor(s, 'tx', a, x, x)          # a gate with a clock() hook reading its own output
+    C['self-loop on a gate with a clock() hook'] = traced_self
+
     def three(s, cut):
         a, x, y, z = s.wire('a', 1), s.wire('x', 1), s.wire('y', 1), s.wire('z', 1)
         Or2(s, 'g1', a, z, x)
